@@ -206,7 +206,7 @@ impl Engine for C16 {
         let total = 6u64.pow(n as u32);
         let mut idx = sink.shard;
         // Index-addressable space: jump straight to this shard's cases.
-        if let Mode::Describe(i) = sink.mode {
+        if let Some(i) = sink.single() {
             idx = i;
         }
         while idx < total {
@@ -215,7 +215,7 @@ impl Engine for C16 {
             }
             let text = text_of(n, idx, &SYMBOLS);
             sink.visit(idx, || json!({"text": text}), |s| run_text(&text, s));
-            if let Mode::Describe(_) = sink.mode {
+            if sink.single().is_some() {
                 break;
             }
             idx += sink.nshards;
